@@ -211,6 +211,30 @@ CORPUS = [
 ]
 
 
+def drain_family(go):
+    """A completion that arrives WHILE the engine drains a cancellation (the task was computing on another thread when cancelBuild() came): the
+    engine waits for it, but that execution was interrupted as far as the build is concerned - its discovered dependencies were not recorded
+    and nothing of it may be relied on: the next build (same engine, or a new one over the database) must bring the rule up to date again,
+    also when only a DISCOVERED input changes afterwards.  The rule re-runs in the cancelled build because of its own observation or signature."""
+    n = 0
+    for usedb in (0, 1):
+        for why in ("obs", "sig"):
+            for seed in (1, 2, 3):
+                pre = ["db %d" % usedb, "rule 0 sig=0 obs=1", "rule 1 sig=0 obs=1", "rule 4 sig=1 obs=%d req=0 disc=1" % (1 if why == "obs" else 0), "rule 5 sig=0 obs=0 req=4",
+                       "set 0 1", "set 1 1", "set 4 1", "build 5"]
+                if why == "obs":
+                    pre += ["set 4 2"]
+                else:
+                    pre += ["rule 4 sig=2 obs=0 req=0 disc=1"] + (["restart"] if usedb else [])
+                if why == "sig" and not usedb:
+                    continue            # a rule edit needs a new engine; without a database that engine has no history
+                for tail in (["set 1 2", "build 5", "set 1 3", "build 4"], ["restart", "set 1 2", "build 5"] if usedb else ["set 1 5", "build 4", "build 5"]):
+                    L = K.with_fresh(pre + ["build 5 sched=threads:%d:400000 cancel=thread:30000" % seed] + tail)
+                    go(L, "drain-%s-%d" % (why, usedb), "drain family why=%s db=%d seed=%d" % (why, usedb, seed))
+                    n += 1
+    return n
+
+
 def exec_queue_family(chk, sess):
     """Cancellation while a task computes in a REAL child process on the engine's execution queue (TaskInterface::spawn), also after the
     engine has already marked the build cancelled by itself (a task asking for a reserved input id): the client's cancelBuild() must
@@ -297,6 +321,7 @@ def run(chk):
             go(L, "h%d" % (i % 30), "seed=%d index=%d %s %s" % (chk.seed, i, sched, cancel))
         if i < 2:
             chk.sample("\n".join(L[:14]))
+    chk.cov["drain_completion_scenarios"] = drain_family(go)
     exec_queue_family(chk, sess)
     sess.close()
     # build-system level: cancellation through BuildSystemFrontend (command skip state, same frontend reused, new process over the same database)
